@@ -10,10 +10,17 @@ CHECKS = {
         text='Hub.tla (small-step requirement spec with an explicit control stack so that handlers may re-enter the hub) is '
              'model-checked by TLC for every clause of C07; every transition of a generation graph and random deep walks are '
              'replayed into a real glue Hub with real HubListeners whose handlers perform the planned nested calls, comparing '
-             'each handler invocation; HubImpl.tla (flag/counter/queue as in hub.py) is checked for the same clauses.',
-        note='Bounded: 2-3 listeners, 2-4 message classes in a tree, <=6 messages, <=3 nested blocks; handlers do not raise; '
-             'blocks closed LIFO. Trusted: TLC, the TLA+ value parser, harness/adapters/hub.py.',
-        technique='TLA+ spec + TLC; behaviour replay into real Hub (spec->code conformance)',
+             'each handler invocation; HubImpl.tla (flag/counter/queue as in hub.py) is checked for the same clauses. In the '
+             'other direction executions of the real Hub - a random driver (6 listeners, 7 classes in a 3-level tree, '
+             'arbitrary filters, handlers running nested programs, exceptions through delay blocks) and the repository\'s own '
+             'tests - are recorded by an external tracer and validated by TLC against Trace_Hub.tla, which reuses Hub.tla\'s '
+             'actions; nine kinds of impossible trace (lost/reordered queued message, delivery during a delay block, wrong '
+             'subscription consulted, double delivery, ...) must be rejected on every run (binding self-test).',
+        note='Model bounded: 2-3 listeners, 2-4 message classes in a tree, <=6 messages, <=3 nested blocks. Traces: a few hundred '
+             '(quick) to thousands (thorough) executions of <=400 events; handlers that raise end the trace (prefix validated); '
+             'blocks closed LIFO (others skipped as outside the domain). Trusted: TLC, the TLA+ value parser, '
+             'harness/adapters/hub.py, harness/glue_tracer.py (event emission order).',
+        technique='TLA+ spec + TLC; behaviour replay into real Hub (spec->code) and TLC trace validation of recorded executions (code->spec)',
         design='7/C07'),
     'C06': dict(
         text='Collection.tla states what C06 requires as a function of the abstract collection/group state; TLC enumerates every '
